@@ -429,12 +429,23 @@ def translate(repo):
                 if acc:
                     for l in type2labels[ty]:
                         own.setdefault(l, set()).update(acc)
+    # functions reachable from the public entry points (cg_* of cgnslib.c and the open-time reader)
+    reach, todo = set(), [n for n, f in funs.items() if n.startswith("cg_") or n == "cgi_read"]
+    while todo:
+        n = todo.pop()
+        if n in reach or n not in funs:
+            continue
+        reach.add(n)
+        todo += [c[0] for c in funs[n].calls]
+    dead = sorted(n for n, f in funs.items() if n not in reach and (f.wrows or f.rrows))
     wl, rl = [], []
     stats = {"writer_functions": 0, "writer_rows": 0, "writer_unparsed": 0, "reader_functions": 0, "reader_rows": 0,
              "reader_unparsed": 0, "templates_dropped": 0}
     unparsed = []
     seenw, seenr = set(), set()
     for f in sorted(funs.values(), key=lambda x: (x.file, x.name)):
+        if f.name not in reach:
+            continue
         if f.wrows:
             stats["writer_functions"] += 1
         for r in f.wrows:
@@ -512,7 +523,7 @@ def translate(repo):
                             alloc.append(unq(xv[0]))
     text = ("(* GENERATED on every run by translators/c01_templates.py from the current src/cgnslib.c, src/cgns_internals.c,\n"
             "   src/cgns_header.h and src/cgnslib.h.  Never edit, never commit. *)\n"
-            "From Coq Require Import ZArith List.\nFrom Coq Require String.\nImport String.StringSyntax.\nFrom CgnsV Require Import TreeDB SidsCodec.\nImport ListNotations.\n"
+            "From Coq Require Import ZArith List.\nFrom Coq Require String.\nImport String.StringSyntax.\nFrom CgnsV Require Import TreeDB SidsRows.\nImport ListNotations.\n"
             "Local Open Scope Z_scope.\n\n"
             "Definition gen_writers : list wrow := [\n%s\n].\n\n"
             "Definition gen_readers : list rrow := [\n%s\n].\n\n"
@@ -527,6 +538,7 @@ def translate(repo):
     info["enum_tables"] = len(et)
     info["unparsed_list"] = unparsed[:40]
     info["read_node_allocates"] = alloc
+    info["unreachable_functions_with_templates"] = dead
     return text, info
 
 
